@@ -729,6 +729,19 @@ func (s *symCtx) expr(v ssa.Value, d int) string {
 	case *ssa.MakeSlice:
 		return "make:" + types.TypeString(x.Type(), shortQual)
 	case *ssa.MakeMap:
+		// map literal: render the entries written right after creation (same block)
+		var es []string
+		if x.Referrers() != nil {
+			for _, r := range *x.Referrers() {
+				if mu, ok := r.(*ssa.MapUpdate); ok && mu.Map == ssa.Value(x) && mu.Block() == x.Block() {
+					es = append(es, s.expr(mu.Key, d+1)+": "+s.expr(mu.Value, d+1))
+				}
+			}
+		}
+		if len(es) > 0 {
+			sort.Strings(es)
+			return "map{" + strings.Join(es, ", ") + "}"
+		}
 		return "make:" + types.TypeString(x.Type(), shortQual)
 	case *ssa.MakeChan:
 		return "makechan(" + s.expr(x.Size, d+1) + ")"
